@@ -77,6 +77,15 @@ func decodeEfaceSlice(buf []byte, l *[]interface{}, elemT reflect.Type, unmarsha
 				return nil, err
 			}
 			out[i] = elem.Elem().Interface()
+		} else if body != nil {
+			// no example value was configured: the unmarshaler picks the
+			// type (RemoteConfig.UnmarshalerUsesRegisteredTypes)
+			var elem interface{}
+			err = unmarshal(body, &elem)
+			if err != nil {
+				return nil, err
+			}
+			out[i] = elem
 		}
 	}
 	*l = out
